@@ -12,6 +12,7 @@ import Driver.C19
 import Driver.C20
 import Driver.C11
 import Driver.C12
+import Driver.C06
 
 open Driver Relic.Model
 
@@ -24,6 +25,7 @@ structure Conf where
   ep : Option C03.Env := none
   ep2 : Option C11.Env := none
   pc : Option C12.Env := none
+  cp : C06.State := {}
 
 def parseCfg (toks : List String) : Conf :=
   toks.foldl (fun c t =>
@@ -47,7 +49,7 @@ def dispatch (c : Conf) (op : String) (args : List String) (got : String) : Opti
     | some e => C11.handle e c.w op args got
     | none => none) <|> (match c.pc with
     | some e => C12.handle e c.w op args got
-    | none => none)
+    | none => none) <|> (C06.handle c.w c.cp c.ep op args got)
 
 def processLine (c : Conf) (line : String) : String :=
   match line.splitOn " => " with
@@ -130,6 +132,15 @@ partial def loop (h : IO.FS.Stream) (out : IO.FS.Stream) (c : Conf) : IO Unit :=
       | none =>
         out.putStrLn (if got == "err" then "ok fp_param-rejected" else "FAIL S model=[] spec=[parsable fp_param] got=[" ++ got ++ "]")
         loop h out { c with fp := none }
+    | _ => out.putStrLn "skip"; loop h out c
+  else if C06.isParam ((line.splitOn " ").headD "") then
+    -- key-generation context lines of C06: the key material the library reports is checked and kept
+    match line.splitOn " => " with
+    | [lhs, got] =>
+      let toks := (lhs.splitOn " ").filter (· ≠ "")
+      let (msg, st) := C06.param c.cp (toks.headD "") (toks.drop 1) got
+      out.putStrLn msg
+      loop h out { c with cp := st }
     | _ => out.putStrLn "skip"; loop h out c
   else
     out.putStrLn (processLine c line)
